@@ -14,6 +14,8 @@
 //
 // Environment: VERIF_C15_SCOPE=all also demands cross-instance uniqueness on the store without
 // SetNX (out of the property's scope by default, see inScope) - used to show that finding.
+// VERIF_C15_PROCS=n runs the gate-scheduled part on n Ps instead of 1 (see enterFree); VERIF_DEBUG=1
+// prints drive time per behaviour class.
 package main
 
 import (
@@ -85,7 +87,11 @@ var gatedProcs = func() int {
 	return 1
 }()
 
+// at most 4 free-running behaviours at a time (each has 3-5 busy goroutines)
+var freeSem = make(chan struct{}, 4)
+
 func enterFree() func() {
+	freeSem <- struct{}{}
 	procMu.Lock()
 	freeActive++
 	if freeActive == 1 {
@@ -99,6 +105,7 @@ func enterFree() func() {
 			runtime.GOMAXPROCS(gatedProcs)
 		}
 		procMu.Unlock()
+		<-freeSem
 	}
 }
 
@@ -337,7 +344,7 @@ func extraBeh(env *fw.Env) []json.RawMessage {
 		ak := apiKinds[i%len(apiKinds)]
 		tk := [][]int{{}, {1}, {1, 2}, {2, 3, 4}}[i%4]
 		for _, sl := range [][2]string{{"cas", "distinct"}, {"cas", "same"}, {"hybrid", "distinct"}, {"hybrid", "mixed"}, {"nocas", "same"}, {"nocas", "distinct"}} {
-			out = append(out, fw.MustJSON(behaviour{Kind: "genfree", Store: sl[0], Lay: sl[1], API: ak[0], IDKind: ak[1], Tk: tk, Seed: i, Procs: 3 + i%2, Ops: 5, Univ: 4 + i%3}))
+			out = append(out, fw.MustJSON(behaviour{Kind: "genfree", Store: sl[0], Lay: sl[1], API: ak[0], IDKind: ak[1], Tk: tk, Seed: i, Procs: 3 + i%2, Ops: 5, Univ: 5 + i%4}))
 		}
 		for _, w := range []string{"split", "same", "local"} {
 			out = append(out, fw.MustJSON(behaviour{Kind: "nodefree", Store: w, Tk: [][]int{{}, {1}, {2}, {1, 3}}[i%4], NSlots: 4, Seed: i, Procs: 3 + i%3}))
